@@ -1,5 +1,5 @@
 (** C10 — correspondence ([agree]) and the spec-side predicate on the implementation's output ([holds]). *)
-From V Require Import Base.Util Gql.Ast Writer.Wop Ts.TsType Ts.TsDen C10.Model C10.Spec C10.Domain C10.JsdocProofs C10.NameProofs C10.ResolverProofs C10.Parse.
+From V Require Import Base.Util Gql.Ast Writer.Wop Ts.TsType Ts.TsDen C10.Model C10.Spec C10.Domain C10.DenLemmas C10.JsdocProofs C10.NameProofs C10.ResolverProofs C10.ResolverArgs C10.ResolverDen C10.Parse.
 
 (** result of one run of a Rust printer: the coalesced recorded operations, the returned error,
     or the caught panic (site numbered as in Model.res) *)
@@ -83,12 +83,6 @@ Fixpoint comments_ok (in_c : bool) (l : str) {struct l} : bool :=
 
 (** the implementation's text, read back with the emitted-subset reader: it must parse, and every
     alias of every namespace must decide like [Ref] on the candidates of its type *)
-Definition raw_local (doc : tsdoc) (l : str) : bool :=
-  existsb (fun td => match td with
-                     | TDScalar _ _ n _ _ => str_eqb l (iname n) || str_eqb l (TMP_PREFIX ++ iname n)
-                     | _ => false
-                     end) (typedefs doc).
-
 Definition impl_exact (o : sopts) (doc : tsdoc) (ops : list wop) : bool :=
   match parse_schema_text (raw_local doc) (raw_text ops) with
   | Some nss =>
@@ -98,6 +92,144 @@ Definition impl_exact (o : sopts) (doc : tsdoc) (ops : list wop) : bool :=
         | None => false
         end) all_targets
   | None => false
+  end.
+
+(** ** the resolvers file, read back from the implementation's text
+
+    A decider for module-level types of the resolvers file as the implementation printed them:
+    module aliases unfold to their declarations, [ns.__ResolverInput.T] / [ns.__ResolverOutput.T] are
+    read in the corresponding namespace of the implementation's SCHEMA text (shared [has_type_b]),
+    [Omit] over an exact object type, function types opaque ([ResolverDen.mt] extended with the input
+    namespace; executable spec side only). *)
+Section RT.
+  Variables (aliases : list (str * tstype)) (ms_in ms_out : list (option member)).
+  Fixpoint rt (fuel : nat) (t : tstype) (v : val) {struct fuel} : option bool :=
+    match fuel with
+    | O => None
+    | S f =>
+        match t with
+        | TVar n _ => match assoc n aliases with Some a => rt f a v | None => None end
+        | TNs3 _ tgt T =>
+            if str_eqb tgt (target_str ResIn)
+            then match alias_of ms_in T with Some b => has_type_b (ns_env ms_in) f b v | None => None end
+            else if str_eqb tgt (target_str ResOut)
+            then match alias_of ms_out T with Some b => has_type_b (ns_env ms_out) f b v | None => None end
+            else None
+        | TFunc (TVar fn _) args =>
+            if is_fn_helper fn then Some (is_function_value v)
+            else if str_eqb fn (s "Omit") then
+              match args with
+              | [TNs3 _ tgt T; TStrLit k] =>
+                  if str_eqb tgt (target_str ResOut)
+                  then match alias_of ms_out T with
+                       | Some (TObject fs) => has_type_b (ns_env ms_out) f (TObject (omit_key k fs)) v
+                       | _ => None
+                       end
+                  else None
+              | _ => None
+              end
+            else None
+        | TUnion ts => fold_right (fun x acc => obool_or (rt f x v) acc) (Some false) ts
+        | TArray x | TRoArray x =>
+            match v with
+            | VList l => fold_right (fun e acc => obool_and (rt f x e) acc) (Some true) l
+            | _ => Some false
+            end
+        | TNull => Some (match v with VNull => true | _ => false end)
+        | TUndefined => Some (match v with VUndef => true | _ => false end)
+        | TNever => Some false
+        | TObject fs =>
+            match v with
+            | VObj kvs =>
+                if nodup_keys (map fst kvs)
+                   && forallb (fun k => existsb (fun fl => str_eqb (f_key fl) k) fs) (map fst kvs)
+                then fold_right (fun fl acc =>
+                       obool_and (match assoc (f_key fl) kvs with
+                                  | Some x => if f_optional fl
+                                              then obool_or (rt f (f_ty fl) x) (Some (match x with VUndef => true | _ => false end))
+                                              else rt f (f_ty fl) x
+                                  | None => Some (f_optional fl)
+                                  end) acc) (Some true) fs
+                else Some false
+            | _ => Some false
+            end
+        | _ => None
+        end
+    end.
+End RT.
+
+Definition field_type (k : str) (t : tstype) : option tstype :=
+  match t with
+  | TObject fs => option_map f_ty (find (fun fl => str_eqb (f_key fl) k) fs)
+  | _ => None
+  end.
+
+Fixpoint strip_typename (v : val) : val :=
+  match v with
+  | VObj kvs => VObj (remove_key TYPENAME kvs)
+  | VList l => VList (map strip_typename l)
+  | _ => v
+  end.
+
+Definition args_candidates (o : sopts) (doc : tsdoc) (args : list inputvaldef) : list val :=
+  let cands (iv : inputvaldef) := vals o doc ResIn DOM_DEPTH (ty_norm (iv_type iv)) in
+  let canon := flat_map (fun iv => match good o doc ResIn (iv_type iv) (cands iv) with
+                                   | Some v => [(iname (iv_name iv), v)]
+                                   | None => []
+                                   end) args in
+  [VNull; VObj []]
+  ++ record_variants 4 canon (fun k => match find (fun iv => str_eqb (iname (iv_name iv)) k) args with
+                                       | Some iv => firstn 16 (cands iv)
+                                       | None => []
+                                       end).
+
+(** for every field of every object type: the entry [Resolvers[O][f]] exists and is a
+    [__Resolver<Parent, Args, Context, Result>] whose [Args] denotes Ref_ResolverInput(args f) and whose
+    [Result] denotes the wrapper-exact type over the resolver-side types, on the candidates *)
+Definition resolvers_impl_ok (o : sopts) (doc : tsdoc) (ms_in ms_out : list (option member)) (text : str) : bool :=
+  match parse_resolvers_text text with
+  | None => false
+  | Some (aliases, root) =>
+      forallb (fun td =>
+        match td with
+        | TDObject _ _ n _ _ fields _ =>
+            match field_type (iname n) root with
+            | None => false
+            | Some obj =>
+                forallb (fun fd =>
+                  match field_type (iname (fd_name fd)) obj with
+                  | Some (TFunc _ [_; args_t; _; result_t]) =>
+                      (match fd_args fd with
+                       | Some args =>
+                           negb (args_wf doc args)
+                           || forallb (fun v => obool_eqb (rt aliases ms_in ms_out DEN_FUEL args_t v) (args_ref o doc args v))
+                                      (args_candidates o doc args)
+                       | None => true
+                       end)
+                      && (negb (result_wf doc (fd_type fd))
+                          || forallb (fun v => obool_eqb (rt aliases ms_in ms_out DEN_FUEL result_t v)
+                                                         (wrap_den (resolver_ref o doc) v (is_nonnull (fd_type fd)) (ty_norm (fd_type fd))))
+                                     (let vs := firstn 30 (vals o doc ResOut 2 (ty_norm (fd_type fd))) in vs ++ map strip_typename vs))
+                  | _ => false
+                  end) fields
+            end
+        | _ => true
+        end) (typedefs doc)
+  end.
+
+(** the implementation's schema text of the first successful well-formed schema run, as namespaces *)
+Definition schema_side (doc : tsdoc) (sruns : list (sopts * res (list wop)))
+  : option (sopts * list (option member) * list (option member)) :=
+  match find (fun r => match snd r with Ok _ => wf_schema (fst r) doc | _ => false end) sruns with
+  | Some (o, Ok ops) =>
+      match parse_schema_text (raw_local doc) (raw_text ops) with
+      | Some nss =>
+          let ns t := match find (fun nm => str_eqb (fst nm) (target_str t)) nss with
+                      | Some nm => map as_member (snd nm) | None => [] end in
+          Some (o, ns ResIn, ns ResOut)
+      | None => None
+      end
+  | _ => None
   end.
 
 Definition run_ok (o : sopts) (doc : tsdoc) (out : res (list wop)) : bool :=
@@ -121,7 +253,19 @@ Definition holds (c : case) : bool :=
   | CDoc checked doc sruns rruns =>
       negb checked
       || (forallb (fun r => run_ok (fst r) doc (snd r)) sruns
-          && forallb (fun r => match snd r with Ok ops => comments_ok false (raw_text ops) | _ => true end) rruns)
+          && forallb (fun r => match snd r with
+                               | Ok ops =>
+                                   comments_ok false (raw_text ops)
+                                   && (* without plugins: Args / Result of every field resolver, read back from the text *)
+                                      (match snd (fst r), schema_side doc sruns with
+                                       | O, Some (o, ms_in, ms_out) =>
+                                           (* a type named like an identifier the file uses otherwise is the known finding (CNames) *)
+                                           negb (forallb (fun td => negb (mem (tname td) (resolver_reserved (fst (fst r))))) (typedefs doc))
+                                           || resolvers_impl_ok o doc ms_in ms_out (raw_text ops)
+                                       | _, _ => true
+                                       end)
+                               | _ => true
+                               end) rruns)
   | CJsdoc items => forallb (fun i => option_eqb str_eqb (scan_block_comment (raw_text (snd i))) (Some [10%N])) items
   | CNames items => forallb name_item_ok items
   end.
